@@ -614,6 +614,12 @@ func finish(ch *Check, tier string, t *ShardResult, wall time.Duration, workers 
 		totalVio += n
 	}
 	topOutcomes := topN(t.Outcomes, 12)
+	if v := os.Getenv("PANMC_PARSER_REGEN"); v != "" {
+		t.Notes["parser_regenerated_from_grammar"] = v
+	}
+	if v := os.Getenv("PANMC_VARIANT"); v != "" {
+		t.Notes["variant"] = v
+	}
 	cov := map[string]interface{}{
 		"evaluations":                   t.Evaluations,
 		"distinct_nontrivial":           t.Nontrivial,
